@@ -87,6 +87,14 @@ theorem sign_value {Sch : Schemes} {k : Key} {m : Bytes} {t : Option (List Char)
   obtain ⟨a, sk, _, h1, h2, _, _, rfl⟩ := sign_ok_elim h
   exact ⟨a, sk, h1, h2, rfl, (Sch.scheme a).sign_len sk m⟩
 
+/-- with the widths of the real crates (64, 64, 64, 96 — `Schemes.Std`, true of the driver's instance) the length of a signature is
+    what `SignatureType::signature_length` announces for the algorithm's type -/
+theorem sign_length_matches_type {Sch : Schemes} (hstd : Sch.Std) {k : Key} {m : Bytes} {t : Option (List Char)} {s : Bytes}
+    (h : signMessage Sch k m t = .ok s) : ∃ a, k.alg.sigAlg? = some a ∧ s.length = a.native.signatureLength :=
+  sign_length_std hstd h
+
+example : Toy.schemes.Std := toy_std
+
 /-- signing is deterministic in the strongest sense the model can express: the outcome (signature or error) is a function of
     (algorithm, secret, message, parsed type) — independent of the stored public part, of how the type was spelled, of any state -/
 theorem sign_deterministic {Sch : Schemes} {k k' : Key} {t t' : Option (List Char)} (m : Bytes)
